@@ -254,11 +254,17 @@ def Spec.filterLoop {α} (sp : Spec) (override pre : Option Bool) :
     else sp.filterLoop override pre rest y f
 
 def Spec.filter {α} (sp : Spec) (override pre : Option Bool) (items : List (α × Ver)) : R (List α) := do
+  -- `if prereleases is None: prereleases = self._prereleases` (an explicit override acts like the argument)
+  let pre := match pre with
+    | some b => some b
+    | none => override
   let (y, f) ← sp.filterLoop override pre items [] []
   if y.isEmpty && !f.isEmpty then pure f else pure y
 
 /-- `_canonical_spec`: the key of `__eq__` / `__hash__` -/
 def Spec.canonical (sp : Spec) : R (Op × Str) := do
+  -- `===`: the text, case-folded (`str.lower`, ASCII here as in `_compare_arbitrary`), nothing else
+  if sp.op == .arbitrary then pure (sp.op, lowerStr sp.ver) else
   match canonicalizeVersion sp.ver (sp.op != .compatible) with
   | some c => pure (sp.op, c)
   | none => .error "InvalidVersion"
